@@ -5,6 +5,7 @@ import MpireModel.Model.Watch
 import MpireModel.Model.Progress
 import MpireModel.Model.Exception
 import MpireModel.Model.History
+import MpireModel.Model.ApplyHandover
 import MpireModel.Drive.Util
 /- Line protocol for the small models. -/
 namespace Mpire.Drive
@@ -190,5 +191,19 @@ def handleHist (fs : List (String × String)) : Option String := do
   let ops ← if os == "-" || os == "" then some [] else (os.splitOn ";").mapM parseHOp
   let states := (ops.foldl (fun (acc : Ctl × List String) op => let s := step acc.1 op; (s, acc.2 ++ [showCtl s])) ({}, [])).2
   some ("ok " ++ "/".intercalate states)
+
+/-! apply hand-over -/
+open Mpire.Handover in
+/-- `handover phase=<queued|pill|task|announced>`: the worker is killed in that phase, the death is handled, the
+replacement reads on → what happens to the job -/
+def handleHandover (fs : List (String × String)) : Option String := do
+  let pre ← match (← get fs "phase") with
+    | "queued" => some ([] : List Ev) | "pill" => some [.takePill] | "task" => some [.takePill, .takeTask]
+    | "announced" => some [.takePill, .takeTask, .announce] | _ => none
+  let s ← run {} (pre ++ [.kill, .deathHandled])
+  let s := match step s .replacementTakes with | some s' => s' | none => s
+  some (match s.w with
+    | .done false => "failed-with-death-error" | .done true => "done" | .lost => "lost" | .ranAsChunk => "ran-as-chunk"
+    | _ => "still-pending")
 
 end Mpire.Drive
